@@ -40,7 +40,7 @@ def Reach (d : Decl ν) (c : Cls ν) : Prop :=
   c.valueMap = (mk d).valueMap ∧ c.memberMap = (mk d).memberMap ∧ (mk d).next ≤ c.next
 
 /-- a history of operations: final state and everything the caller saw -/
-def run (c : Cls ν) : List (Op ν) → Cls ν × List (Out ν)
+def run (c : Cls ν) : List (EnumM.Op ν) → Cls ν × List (Out ν)
   | [] => (c, [])
   | op :: ops => let (c1, o) := step c op; let (c2, os) := run c1 ops; (c2, o :: os)
 
@@ -49,7 +49,7 @@ theorem reach_mk (d : Decl ν) : Reach d (mk d) := ⟨rfl, rfl, Nat.le_refl _⟩
 /-- **immutability, class level (sentence 3)**: no operation of the API — lookups, open
     values, iteration, membership tests, copies, pickling, and all five kinds of mutation
     attempt — changes `_value_map_` or `_member_map_` -/
-theorem reach_step (d : Decl ν) (c : Cls ν) (op : Op ν) (h : Reach d c) : Reach d (step c op).1 := by
+theorem reach_step (d : Decl ν) (c : Cls ν) (op : EnumM.Op ν) (h : Reach d c) : Reach d (step c op).1 := by
   obtain ⟨h1, h2, h3⟩ := h
   have tv : ∀ v, Reach d (tryValue c v).1 := by
     intro v
@@ -62,7 +62,7 @@ theorem reach_step (d : Decl ν) (c : Cls ν) (op : Op ν) (h : Reach d c) : Rea
     obtain ⟨t1, t2, t3⟩ := tv v
     exact ⟨t1, t2, by simp only [step]; omega⟩
 
-theorem reach_run (d : Decl ν) (ops : List (Op ν)) (c : Cls ν) (h : Reach d c) : Reach d (run c ops).1 := by
+theorem reach_run (d : Decl ν) (ops : List (EnumM.Op ν)) (c : Cls ν) (h : Reach d c) : Reach d (run c ops).1 := by
   induction ops generalizing c with
   | nil => exact h
   | cons op ops ih => exact ih _ (reach_step d c op h)
@@ -237,7 +237,7 @@ theorem contains_iff_defined (d : Decl ν) (hnd : NamesNodup d = true) (c : Cls 
     every lookup — by number, by name, by attribute, `from_string`, iteration, `len`,
     `__members__`, and the name / number of `try_value(v)` for every `v` — gives what it
     gave before.  (PARTIAL: that the real classes raise is the modelled part.) -/
-theorem immutable (c : Cls ν) (op : Op ν) (hm : op.isMutation = true) :
+theorem immutable (c : Cls ν) (op : EnumM.Op ν) (hm : op.isMutation = true) :
     (∃ e, (step c op).2 = .err e)
     ∧ (∀ v, call (step c op).1 v = call c v)
     ∧ (∀ n, getitem (step c op).1 n = getitem c n ∧ getattr (step c op).1 n = getattr c n
